@@ -114,6 +114,68 @@ func randomAncestor(rng *rand.Rand, nodes *ignorex.Node) *core.Entry {
 	return rec(nodes)
 }
 
+// deepReinclusion plants a re-inclusion at least two levels below an excluded
+// directory: directories d1/d2/d3[/d4] with a leaf at the bottom and plain
+// files beside the intermediate directories, excluded by a pattern naming d1
+// and re-included by a '!' pattern naming the bottom directory or the leaf.
+// The intermediate directories are then NOMINAL and traversed only because of
+// traversal continuation.
+func deepReinclusion(rng *rand.Rand, c *dockerCase) {
+	depth := 3 + rng.Intn(2)
+	segs := make([]string, depth)
+	for k := range segs {
+		segs[k] = c15Names[rng.Intn(len(c15Names))]
+	}
+	for k := 1; k <= depth; k++ {
+		d := strings.Join(segs[:k], "/")
+		for p := range c.Tree {
+			if p == d && c.Tree[p].Kind != fsx.KDir {
+				delete(c.Tree, p)
+			}
+		}
+		c.Tree[d] = &fsx.Node{Kind: fsx.KDir, Mode: 0o755}
+		side := d + "/" + c15Names[rng.Intn(len(c15Names))]
+		if _, ok := c.Tree[side]; !ok && (k == depth || side != strings.Join(segs[:k+1], "/")) {
+			c.Tree[side] = &fsx.Node{Kind: fsx.KFile, Content: []byte("side file " + side + "\n"), Mode: 0o644}
+		}
+	}
+	// drop generated content that sits below a path which is now a file
+	for p := range c.Tree {
+		for q := p; ; {
+			k := strings.LastIndexByte(q, '/')
+			if k < 0 {
+				break
+			}
+			q = q[:k]
+			if n, ok := c.Tree[q]; ok && n.Kind != fsx.KDir {
+				delete(c.Tree, p)
+				break
+			}
+		}
+	}
+	bottom := strings.Join(segs, "/")
+	leaf := bottom + "/" + c15Names[rng.Intn(len(c15Names))]
+	if n, ok := c.Tree[leaf]; !ok || n.Kind == fsx.KDir {
+		if !ok {
+			c.Tree[leaf] = &fsx.Node{Kind: fsx.KFile, Content: []byte("re-included leaf\n"), Mode: 0o644}
+		}
+	}
+	excluder := []string{segs[0], "/" + segs[0], segs[0] + "/", "*"}[rng.Intn(4)]
+	reinclude := "!" + bottom
+	if rng.Intn(2) == 0 {
+		reinclude = "!" + leaf
+	}
+	aimed := []string{excluder, reinclude}
+	if rng.Intn(3) == 0 {
+		aimed = append(aimed, "!"+strings.Join(segs[:2], "/")+"/"+c15Names[rng.Intn(len(c15Names))])
+	}
+	if len(c.Patterns) > 3 {
+		c.Patterns = c.Patterns[:3]
+	}
+	pos := rng.Intn(len(c.Patterns) + 1)
+	c.Patterns = append(append(append([]string{}, c.Patterns[:pos]...), aimed...), c.Patterns[pos:]...)
+}
+
 func c15() {
 	r := vk.Start("C15", "exploration")
 	n := r.Pick(1500, 50000)
@@ -125,12 +187,16 @@ func c15() {
 
 	parallel(n, runtime.NumCPU(), func(i int) {
 		rng := r.Rand(fmt.Sprintf("case-%d", i))
+		rng2 := r.Rand(fmt.Sprintf("rescan-%d", i))
 		c := dockerCase{Index: i}
 		c.Tree = ignorex.SmallTree(rng, c15Names, 30, 4, true)
 		if rng.Intn(4) == 0 {
 			c.Patterns = ignorex.DockerList(rng, c15Names, 5)
 		} else {
 			c.Patterns = ignorex.DockerListForTree(rng, c15Names, c.Tree.SortedPaths(), 5)
+		}
+		if rng2.Intn(4) == 0 {
+			deepReinclusion(rng2, &c)
 		}
 		fmt.Printf("C15 case %d: patterns=%q tree=%q\n", i, c.Patterns, c.witness()["tree"])
 		r.Eval(1)
@@ -140,16 +206,6 @@ func c15() {
 			r.Count("reference_rejected_pattern_list", 1)
 			return
 		}
-		nodes := ignorex.BuildNodes(ignorex.TreePaths(c.Tree))
-		disk := nodes.AllPaths()
-		dockerWalk, err := dock.Walk(nodes)
-		if err != nil {
-			r.Count("reference_walk_error", 1)
-			return
-		}
-		documentedWalk := dock.WalkDocumented(nodes)
-
-		// Real scan.
 		root := filepath.Join(base, fmt.Sprintf("t%d", i))
 		defer os.RemoveAll(root)
 		if err := fsx.Materialize(root, c.Tree); err != nil {
@@ -159,6 +215,169 @@ func c15() {
 		cfg := fsx.DefaultScanConfig()
 		cfg.Docker = true
 		cfg.Patterns = c.Patterns
+
+		var populatedAncestor *core.Entry
+		caseKnown := false
+		var dockerWalk ignorex.Membership
+		includedLeaves, excluded := 0, 0
+
+		// judge reifies one real snapshot (nil and populated ancestor) and
+		// compares it with the Docker reference and the classifier, both
+		// computed from the tree as it is NOW. stage "" = the cold scan.
+		judge := func(stage string, content *core.Entry) bool {
+			suffix := ""
+			if stage != "" {
+				suffix = "_rescans"
+			}
+			nodes := ignorex.BuildNodes(ignorex.TreePaths(c.Tree))
+			disk := nodes.AllPaths()
+			var werr error
+			dockerWalk, werr = dock.Walk(nodes)
+			if werr != nil {
+				r.Count("reference_walk_error", 1)
+				return false
+			}
+			documentedWalk := dock.WalkDocumented(nodes)
+			if stage == "" {
+				populatedAncestor = randomAncestor(rng, nodes)
+				for p, dir := range disk {
+					if _, ok := dockerWalk.Tracked[p]; ok {
+						if !dir {
+							includedLeaves++
+						}
+					} else {
+						excluded++
+					}
+				}
+			}
+			for variant := 0; variant < 2; variant++ {
+				var ancestor *core.Entry
+				ancName := "nil"
+				if variant == 1 {
+					ancestor = populatedAncestor
+					ancName = "populated"
+				}
+				ancDir := func(p string) bool {
+					e := gen.At(ancestor, p)
+					return e != nil && e.Kind == core.EntryKind_Directory
+				}
+				var reified *core.Entry
+				r.Guard(c.witness(), func() { reified, _, _, _ = core.ReifyPhantomDirectories(ancestor, content, nil) })
+				if reified == nil {
+					continue
+				}
+				real, phantoms := realTracked(reified)
+				wantDocker := ignorex.Reify(nodes, dockerWalk, ancDir)
+				wantDocumented := ignorex.Reify(nodes, documentedWalk, ancDir)
+
+				var knownPaths, newPaths, modelOnly []string
+				newKind := ""
+				for p, dir := range disk {
+					_, rT := real[p]
+					_, dT := wantDocker[p]
+					_, mT := wantDocumented[p]
+					r.Count("paths_compared"+suffix, 1)
+					if rT != mT {
+						r.Count("paths_where_documented_model_differs_from_real"+suffix, 1)
+					}
+					if rT == dT {
+						if rT != mT {
+							modelOnly = append(modelOnly, p)
+						}
+						continue
+					}
+					if rT == mT {
+						knownPaths = append(knownPaths, p)
+						continue
+					}
+					newPaths = append(newPaths, p)
+					if newKind == "" {
+						k := "leaf"
+						if dir {
+							k = "directory"
+						}
+						newKind = fmt.Sprintf("%s real=%s docker=%s", k, trackedWord(rT), trackedWord(dT))
+					}
+				}
+				for p := range real {
+					if _, ok := disk[p]; !ok {
+						newPaths = append(newPaths, p)
+						if newKind == "" {
+							newKind = "path-not-on-disk"
+						}
+					}
+				}
+				for _, p := range phantoms {
+					newPaths = append(newPaths, p)
+					newKind = "phantom-directory-survives-reification"
+				}
+				sort.Strings(knownPaths)
+				sort.Strings(newPaths)
+				describe := func() map[string]any {
+					w := c.witness()
+					w["normalized_patterns"] = dock.Lines
+					w["ancestor"] = describeEntry(ancestor)
+					w["real_synchronized"] = ignorex.DescribeSet(real)
+					w["docker_reference"] = ignorex.DescribeSet(wantDocker)
+					w["documented_model"] = ignorex.DescribeSet(wantDocumented)
+					if stage != "" {
+						w["scan"] = stage
+					}
+					return w
+				}
+				if len(newPaths) > 0 {
+					w := describe()
+					w["paths"] = newPaths
+					parts := strings.SplitN(newKind, " ", 2)
+					sig := map[string]string{"rule": "differs-from-documented-algorithm", "ancestor": ancName, "kind": parts[0]}
+					if len(parts) == 2 {
+						sig["verdicts"] = parts[1]
+					}
+					scanWord := "cold scan"
+					if stage != "" {
+						sig["scan"] = "accelerated"
+						scanWord = stage
+					}
+					r.Violation(sig, fmt.Sprintf("patterns %q (%s, ancestor %s): the synchronized set differs from Docker's at %v and Mutagen's documented algorithm does not explain it (%s)", c.Patterns, scanWord, ancName, newPaths, newKind), w)
+				}
+				if len(knownPaths) > 0 {
+					if stage == "" {
+						caseKnown = true
+					}
+					r.Count("docker_parent_inheritance_paths_ancestor_"+ancName+suffix, int64(len(knownPaths)))
+					r.Count("docker_parent_inheritance_cases_ancestor_"+ancName+suffix, 1)
+					w := describe()
+					w["paths"] = knownPaths
+					if variant == 0 && stage == "" {
+						mu.Lock()
+						if len(knownExamples) < 6 {
+							knownExamples = append(knownExamples, map[string]any{"patterns": c.Patterns, "paths": knownPaths, "real": w["real_synchronized"], "docker": w["docker_reference"]})
+						}
+						mu.Unlock()
+					}
+					r.Violation(map[string]string{"rule": "docker-parent-inheritance"},
+						fmt.Sprintf("patterns %q (ancestor %s): Docker applies patterns to parent directories too, Mutagen matches the path only; differing paths %v", c.Patterns, ancName, knownPaths), w)
+				}
+				if len(modelOnly) > 0 {
+					r.Count("paths_real_equals_docker_but_not_documented_model"+suffix, int64(len(modelOnly)))
+				}
+
+				// accounting of what reification was exercised
+				for d := range dockerWalk.Descended {
+					if _, ok := wantDocker[d]; !ok {
+						r.Count("excluded_descended_directories_expected_untracked_"+ancName+suffix, 1)
+					} else {
+						r.Count("excluded_descended_directories_expected_tracked_"+ancName+suffix, 1)
+						if ancDir(d) {
+							r.Count("excluded_descended_directories_with_ancestor_directory"+suffix, 1)
+						}
+					}
+				}
+			}
+			return true
+		}
+
+		// Cold scan.
 		var state *fsx.ScanState
 		var scanErr error
 		r.Guard(c.witness(), func() { state, scanErr = fsx.Cold(root, cfg) })
@@ -172,132 +391,98 @@ func c15() {
 			r.Violation(map[string]string{"rule": rule}, fmt.Sprintf("real Docker-style scan failed: %v", scanErr), w)
 			return
 		}
-		content := state.Snapshot.Content
-
-		includedLeaves, excluded := 0, 0
-		for p, dir := range disk {
-			if _, ok := dockerWalk.Tracked[p]; ok {
-				if !dir {
-					includedLeaves++
-				}
-			} else {
-				excluded++
-			}
+		if !judge("", state.Snapshot.Content) {
+			return
 		}
 		nontrivial := includedLeaves > 0 && excluded > 0
-		caseKnown := false
+		coldDescended := len(dockerWalk.Descended)
+		// a re-inclusion at least two levels below an excluded directory shows
+		// as an excluded-but-descended directory that is not at the top of its
+		// excluded subtree, with an included leaf beneath it
+		deep := false
+		for d := range dockerWalk.Descended {
+			if k := strings.LastIndexByte(d, '/'); k >= 0 && dockerWalk.Descended[d[:k]] {
+				for p, dir := range dockerWalk.Tracked {
+					if !dir && strings.HasPrefix(p, d+"/") {
+						deep = true
+					}
+				}
+			}
+		}
 
-		for variant := 0; variant < 2; variant++ {
-			var ancestor *core.Entry
-			ancName := "nil"
-			if variant == 1 {
-				ancestor = randomAncestor(rng, nodes)
-				ancName = "populated"
+		// Rescans the way the endpoint performs them: previous snapshot as
+		// baseline, previous digest cache, previous IGNORE CACHE, re-check
+		// paths from the watcher. All cases with traversal below an excluded
+		// directory and a fifth of the others get two accelerated scans.
+		if coldDescended > 0 || rng2.Intn(5) == 0 {
+			if deep {
+				r.Count("rescan_cases_with_reinclusion_two_levels_below_excluded", 1)
 			}
-			ancDir := func(p string) bool {
-				e := gen.At(ancestor, p)
-				return e != nil && e.Kind == core.EntryKind_Directory
-			}
-			var reified *core.Entry
-			r.Guard(c.witness(), func() { reified, _, _, _ = core.ReifyPhantomDirectories(ancestor, content, nil) })
-			if reified == nil {
-				continue
-			}
-			real, phantoms := realTracked(reified)
-			wantDocker := ignorex.Reify(nodes, dockerWalk, ancDir)
-			wantDocumented := ignorex.Reify(nodes, documentedWalk, ancDir)
-
-			var knownPaths, newPaths, modelOnly []string
-			newKind := ""
-			for p, dir := range disk {
-				_, rT := real[p]
-				_, dT := wantDocker[p]
-				_, mT := wantDocumented[p]
-				r.Count("paths_compared", 1)
-				if rT != mT {
-					r.Count("paths_where_documented_model_differs_from_real", 1)
+			r.Count("rescan_cases", 1)
+			var dirs, all []string
+			for _, p := range c.Tree.SortedPaths() {
+				all = append(all, p)
+				if c.Tree[p].Kind == fsx.KDir {
+					dirs = append(dirs, p)
 				}
-				if rT == dT {
-					if rT != mT {
-						modelOnly = append(modelOnly, p)
+			}
+			for k := 1; k <= 2; k++ {
+				recheck := map[string]bool{}
+				how := ""
+				switch rng2.Intn(4) {
+				case 0: // the root, nothing changed on disk
+					recheck[""] = true
+					how = "root"
+				case 1: // some existing path (unrelated or inside), nothing changed
+					recheck[all[rng2.Intn(len(all))]] = true
+					how = "existing-path"
+				default: // a new file appears in some directory; the watcher names that directory
+					d := ""
+					if len(dirs) > 0 && rng2.Intn(4) != 0 {
+						d = dirs[rng2.Intn(len(dirs))]
 					}
-					continue
-				}
-				if rT == mT {
-					knownPaths = append(knownPaths, p)
-					continue
-				}
-				newPaths = append(newPaths, p)
-				if newKind == "" {
-					k := "leaf"
-					if dir {
-						k = "directory"
+					name := fmt.Sprintf("new%d", k)
+					if rng2.Intn(2) == 0 {
+						name = c15Names[rng2.Intn(len(c15Names))]
 					}
-					newKind = fmt.Sprintf("%s real=%s docker=%s", k, trackedWord(rT), trackedWord(dT))
-				}
-			}
-			for p := range real {
-				if _, ok := disk[p]; !ok {
-					newPaths = append(newPaths, p)
-					if newKind == "" {
-						newKind = "path-not-on-disk"
+					p := name
+					if d != "" {
+						p = d + "/" + name
+					}
+					if _, exists := c.Tree[p]; !exists {
+						content := []byte(fmt.Sprintf("case %d rescan %d new file\n", i, k))
+						if err := os.WriteFile(filepath.Join(root, filepath.FromSlash(p)), content, 0o644); err != nil {
+							r.Inconclusive("edit-failed")
+							return
+						}
+						c.Tree[p] = &fsx.Node{Kind: fsx.KFile, Content: content, Mode: 0o644}
+					}
+					recheck[d] = true
+					how = "new-file-in-directory"
+					if rng2.Intn(3) == 0 {
+						recheck[all[rng2.Intn(len(all))]] = true
 					}
 				}
-			}
-			for _, p := range phantoms {
-				newPaths = append(newPaths, p)
-				newKind = "phantom-directory-survives-reification"
-			}
-			sort.Strings(knownPaths)
-			sort.Strings(newPaths)
-			describe := func() map[string]any {
-				w := c.witness()
-				w["normalized_patterns"] = dock.Lines
-				w["ancestor"] = describeEntry(ancestor)
-				w["real_synchronized"] = ignorex.DescribeSet(real)
-				w["docker_reference"] = ignorex.DescribeSet(wantDocker)
-				w["documented_model"] = ignorex.DescribeSet(wantDocumented)
-				return w
-			}
-			if len(newPaths) > 0 {
-				w := describe()
-				w["paths"] = newPaths
-				parts := strings.SplitN(newKind, " ", 2)
-				sig := map[string]string{"rule": "differs-from-documented-algorithm", "ancestor": ancName, "kind": parts[0]}
-				if len(parts) == 2 {
-					sig["verdicts"] = parts[1]
+				stage := fmt.Sprintf("accelerated scan %d (recheck %v)", k, describeRecheck(recheck))
+				fmt.Printf("C15 case %d: %s\n", i, stage)
+				var next *fsx.ScanState
+				r.Guard(c.witness(), func() { next, scanErr = fsx.Accelerated(root, cfg, state, recheck) })
+				if scanErr != nil || next == nil {
+					w := c.witness()
+					w["error"] = fmt.Sprint(scanErr)
+					w["scan"] = stage
+					r.Violation(map[string]string{"rule": "scan-failed", "scan": "accelerated"}, fmt.Sprintf("%s failed: %v", stage, scanErr), w)
+					return
 				}
-				r.Violation(sig, fmt.Sprintf("patterns %q (ancestor %s): the synchronized set differs from Docker's at %v and Mutagen's documented algorithm does not explain it (%s)", c.Patterns, ancName, newPaths, newKind), w)
-			}
-			if len(knownPaths) > 0 {
-				caseKnown = true
-				r.Count("docker_parent_inheritance_paths_ancestor_"+ancName, int64(len(knownPaths)))
-				r.Count("docker_parent_inheritance_cases_ancestor_"+ancName, 1)
-				w := describe()
-				w["paths"] = knownPaths
-				if variant == 0 {
-					mu.Lock()
-					if len(knownExamples) < 6 {
-						knownExamples = append(knownExamples, map[string]any{"patterns": c.Patterns, "paths": knownPaths, "real": w["real_synchronized"], "docker": w["docker_reference"]})
-					}
-					mu.Unlock()
+				state = next
+				r.Eval(1)
+				r.Count("rescans_judged", 1)
+				r.Count("rescans_recheck_"+how, 1)
+				if !judge(stage, state.Snapshot.Content) {
+					return
 				}
-				r.Violation(map[string]string{"rule": "docker-parent-inheritance"},
-					fmt.Sprintf("patterns %q (ancestor %s): Docker applies patterns to parent directories too, Mutagen matches the path only; differing paths %v", c.Patterns, ancName, knownPaths), w)
-			}
-			if len(modelOnly) > 0 {
-				r.Count("paths_real_equals_docker_but_not_documented_model", int64(len(modelOnly)))
-			}
-
-			// accounting of what reification was exercised
-			for d := range dockerWalk.Descended {
-				if _, ok := wantDocker[d]; !ok {
-					r.Count("excluded_descended_directories_expected_untracked_"+ancName, 1)
-				} else {
-					r.Count("excluded_descended_directories_expected_tracked_"+ancName, 1)
-					if ancDir(d) {
-						r.Count("excluded_descended_directories_with_ancestor_directory", 1)
-					}
+				if deep {
+					r.Distinct(fmt.Sprintf("r|%s|k%d|known%v", how, k, caseKnown))
 				}
 			}
 		}
@@ -314,15 +499,15 @@ func c15() {
 					excl++
 				}
 			}
-			if len(dockerWalk.Descended) > 0 {
+			if coldDescended > 0 {
 				r.Count("cases_with_descended_excluded_directory", 1)
 			}
-			r.Distinct(fmt.Sprintf("d|p%d|x%d|desc%s|inc%s|exc%s|known%v", len(dock.Lines), excl, bucket(len(dockerWalk.Descended)), bucket(includedLeaves), bucket(excluded), caseKnown))
+			r.Distinct(fmt.Sprintf("d|p%d|x%d|desc%s|inc%s|exc%s|known%v", len(dock.Lines), excl, bucket(coldDescended), bucket(includedLeaves), bucket(excluded), caseKnown))
 			mu.Lock()
-			if sampled < 4 && len(dockerWalk.Descended) > 0 {
+			if sampled < 4 && coldDescended > 0 {
 				sampled++
 				r.Sample(map[string]any{"patterns": c.Patterns, "entries": len(c.Tree), "included_leaves": includedLeaves, "excluded_paths": excluded,
-					"excluded_but_descended": ignorex.DescribeSet(dockerWalk.Descended), "docker_reference": ignorex.DescribeSet(dockerWalk.Tracked)})
+					"excluded_but_descended": ignorex.DescribeSet(dockerWalk.Descended), "docker_reference": ignorex.DescribeSet(dockerWalk.Tracked), "rescanned_twice_with_previous_caches": true, "reinclusion_two_levels_below": deep})
 			}
 			mu.Unlock()
 		}
@@ -333,13 +518,27 @@ func c15() {
 	r.Assume("pattern grammar restricted to what both sides define: no backslash, no comment lines, '**' only as a whole segment")
 	r.Assume("a directory excluded by the reference and not descended by it is expected untracked whatever the ancestor holds (the property's 'only if')")
 	r.Assume("disagreements explained by Mutagen's documented algorithm (path-only matching, one inherited mask) are reported under the signature rule=docker-parent-inheritance; any other disagreement is rule=differs-from-documented-algorithm")
+	r.Assume("rescans are driven as the local endpoint drives them: previous snapshot as baseline, previous digest cache and ignore cache, re-check paths = the root / an existing path / the directory in which a new file appeared; every changed path is covered by a re-check path")
 	floor := 25
 	if r.Counter("cases_with_descended_excluded_directory") < 20 || r.Counter("cases_with_nontrivial_included_set") < 100 ||
-		r.Counter("excluded_descended_directories_with_ancestor_directory") < 5 {
-		fmt.Println("ERROR: C15 observed too few cases with re-inclusion below excluded directories / ancestor-reified directories")
+		r.Counter("excluded_descended_directories_with_ancestor_directory") < 5 ||
+		r.Counter("rescan_cases_with_reinclusion_two_levels_below_excluded") < 20 || r.Counter("rescans_judged") < 100 {
+		fmt.Println("ERROR: C15 observed too few cases with re-inclusion below excluded directories / ancestor-reified directories / rescans with the previous ignore cache")
 		floor = 1 << 30
 	}
-	r.Finish("seeded random (.dockerignore list, disk tree) pairs, each reified once with a nil and once with a populated ancestor; a pair is non-trivial if the Docker reference includes at least one leaf and excludes at least one path; distinct = (patterns, exclusion patterns, descended excluded directories bucket, included leaves bucket, excluded paths bucket, known disagreement present)", floor)
+	r.Finish("seeded random (.dockerignore list, disk tree) pairs (a quarter with a planted re-inclusion 3-4 levels below an excluded directory), each scanned cold and reified once with a nil and once with a populated ancestor; cases with traversal below an excluded directory and a fifth of the others are then rescanned twice with the previous snapshot, digest cache and ignore cache and judged again after each rescan; a pair is non-trivial if the Docker reference includes at least one leaf and excludes at least one path; distinct = (patterns, exclusion patterns, descended excluded directories bucket, included leaves bucket, excluded paths bucket, known disagreement present) plus, for rescans of deep re-inclusions, (re-check kind, rescan index, known disagreement present)", floor)
+}
+
+func describeRecheck(m map[string]bool) []string {
+	out := make([]string, 0, len(m))
+	for p := range m {
+		if p == "" {
+			p = "<root>"
+		}
+		out = append(out, p)
+	}
+	sort.Strings(out)
+	return out
 }
 
 func trackedWord(t bool) string {
